@@ -131,11 +131,16 @@ pub fn node_paths(tree: &AffTree<2>) -> BTreeMap<usize, Vec<Row>> {
     out
 }
 
-/// f64 rows of the reported path polytope of every node (bit-exact, as the library builds them).
+/// f64 rows of the reported path polytope of every node (bit-exact, as the library builds them),
+/// plus the same rows after the library's own `normalize()` (Polytope::status normalizes the
+/// rows before it calls the backend since the fix of DESIGN.md 6.5; either form is accepted).
 pub fn node_paths_bits(tree: &AffTree<2>) -> HashSet<Vec<u64>> {
+    use affinitree::linalg::affine::Polytope;
+    use ndarray::{Array1, Array2};
     let t = &tree.tree;
+    let dim = tree.in_dim();
     let mut out = HashSet::new();
-    let mut stack: Vec<(usize, Vec<u64>)> = vec![(t.get_root_idx(), Vec::new())];
+    let mut stack: Vec<(usize, Vec<f64>)> = vec![(t.get_root_idx(), Vec::new())];
     while let Some((idx, rows)) = stack.pop() {
         let node = t.tree_node(idx).expect("well-formed tree");
         if !node.isleaf {
@@ -144,14 +149,35 @@ pub fn node_paths_bits(tree: &AffTree<2>) -> HashSet<Vec<u64>> {
                     let f = if label == 1 { 1.0 } else { -1.0 };
                     let mut r = rows.clone();
                     for v in node.value.aff.mat.row(0).iter() {
-                        r.push((v * f).to_bits());
+                        r.push(v * f);
                     }
-                    r.push((node.value.aff.bias[0] * f).to_bits());
+                    r.push(node.value.aff.bias[0] * f);
                     stack.push((*c, r));
                 }
             }
         }
-        out.insert(rows);
+        out.insert(rows.iter().map(|v| v.to_bits()).collect::<Vec<u64>>());
+        let n = if dim + 1 > 0 { rows.len() / (dim + 1) } else { 0 };
+        if n > 0 && rows.iter().all(|v| v.is_finite()) {
+            let mut m = Array2::<f64>::zeros((n, dim));
+            let mut b = Array1::<f64>::zeros(n);
+            for i in 0..n {
+                for j in 0..dim {
+                    m[[i, j]] = rows[i * (dim + 1) + j];
+                }
+                b[i] = rows[i * (dim + 1) + dim];
+            }
+            if let Ok(p) = guarded(|| Polytope::from_mats(m, b).normalize()) {
+                let mut key = Vec::with_capacity(rows.len());
+                for i in 0..n {
+                    for j in 0..dim {
+                        key.push(p.mat[[i, j]].to_bits());
+                    }
+                    key.push(p.bias[i].to_bits());
+                }
+                out.insert(key);
+            }
+        }
     }
     out
 }
@@ -185,7 +211,7 @@ pub fn contains_with_allowance(row: &Row, w: &[Q]) -> (bool, bool) {
 
 /// C05: every stored witness lies in its node's reported path polytope; no node marked
 /// Infeasible has a FAT region.
-pub fn check_caches(tree: &AffTree<2>) -> Result<CacheStats, Fail> {
+pub fn check_caches(tree: &AffTree<2>, fat_box: Option<f64>) -> Result<CacheStats, Fail> {
     let paths = node_paths(tree);
     let mut st = CacheStats::default();
     let in_dim = tree.in_dim();
@@ -196,7 +222,14 @@ pub fn check_caches(tree: &AffTree<2>) -> Result<CacheStats, Fail> {
             NodeState::Feasible => st.feasible_nodes += 1,
             NodeState::Infeasible => {
                 st.infeasible_nodes += 1;
-                let w = width(in_dim, rows);
+                let w = match fat_box {
+                    Some(bd) => {
+                        let mut r = rows.clone();
+                        r.extend(crate::model::box_rows(in_dim, bd));
+                        width(in_dim, &r)
+                    }
+                    None => width(in_dim, rows),
+                };
                 if w.class() == Class::Fat {
                     return Err((
                         "infeasible_mark_on_fat_region".into(),
@@ -352,15 +385,17 @@ pub struct AuditStats {
     pub exact_empty: u64,
     pub exact_thin: u64,
     pub exact_fat: u64,
-    /// backend said Infeasible on a FAT polytope, or Optimal on an EMPTY one, or its point is outside
+    /// backend said Infeasible on a FAT polytope, or Optimal on an EMPTY one
     pub backend_disagreements: u64,
+    /// backend said Optimal with a point outside the library's 1e-8 tolerance (sent to the repair)
+    pub backend_points_outside_tolerance: u64,
     pub path_polytopes_matched: u64,
 }
 
 /// Referees the real backend's answers with the exact LP and, when `pre_paths` is given
 /// (elimination steps), demands that every polytope handed to the backend is row for row the
 /// reported path polytope of a node of the pre-step tree.
-pub fn audit(records: &[LpRecord], pre_paths: Option<&HashSet<Vec<u64>>>, st: &mut AuditStats) -> Result<(), Fail> {
+pub fn audit(records: &[LpRecord], pre_paths: Option<&HashSet<Vec<u64>>>, st: &mut AuditStats, fat_box: Option<f64>) -> Result<(), Fail> {
     for r in records {
         if !r.zero_objective {
             continue;
@@ -380,25 +415,51 @@ pub fn audit(records: &[LpRecord], pre_paths: Option<&HashSet<Vec<u64>>>, st: &m
             match r.real {
                 StatusKind::Infeasible => {
                     st.real_infeasible += 1;
-                    if class == Class::Fat {
+                    // inside a box: rows that are opposite only up to rounding (e.g. after the
+                    // library's normalize) open wedges 1e16 away that are not feasible in any useful sense
+                    let fat = class == Class::Fat && {
+                        let mut rr = rows.clone();
+                        rr.extend(crate::model::box_rows(dim, fat_box.unwrap_or(1e6)));
+                        width(dim, &rr).class() == Class::Fat
+                    };
+                    if fat {
                         st.backend_disagreements += 1;
+                        if std::env::var("VERIF_AUDIT_DUMP").is_ok() {
+                            eprintln!(
+                                "AUDIT backend says Infeasible, exact l1-width {} centre {:?}\n  mat={:?}\n  bias={:?}",
+                                w.rho.to_f64(),
+                                w.center.iter().map(|q| q.to_f64()).collect::<Vec<_>>(),
+                                r.mat,
+                                r.bias
+                            );
+                        }
                     }
                 }
                 StatusKind::Optimal => {
                     st.real_optimal += 1;
-                    let mut bad = class == Class::Empty;
+                    let bad = class == Class::Empty;
                     if let Some(wit) = &r.real_witness {
                         if wit.iter().all(|v| v.is_finite()) {
                             let wq: Vec<Q> = wit.iter().map(|v| Q::from_f64(*v)).collect();
                             if rows.iter().any(|row| !contains_with_allowance(row, &wq).0) {
-                                bad = true;
+                                st.backend_points_outside_tolerance += 1;
                             }
                         } else {
-                            bad = true;
+                            st.backend_points_outside_tolerance += 1;
                         }
                     }
                     if bad {
                         st.backend_disagreements += 1;
+                        if std::env::var("VERIF_AUDIT_DUMP").is_ok() {
+                            eprintln!(
+                                "AUDIT backend says Optimal({:?}), exact class {:?} l1-width {}\n  mat={:?}\n  bias={:?}",
+                                r.real_witness,
+                                class,
+                                w.rho.to_f64(),
+                                r.mat,
+                                r.bias
+                            );
+                        }
                     }
                 }
                 _ => st.real_other += 1,
